@@ -39,6 +39,7 @@ impl FecEncoder for RaptorEncoder {
 
 pub struct RaptorDecoder {
     source_block_size: usize,
+    nb_source_symbols: usize,
     decoder: raptor_code::SourceBlockDecoder,
     data: Option<Vec<u8>>,
 }
@@ -53,8 +54,26 @@ impl RaptorDecoder {
         RaptorDecoder {
             decoder: raptor_code::SourceBlockDecoder::new(nb_source_symbols),
             source_block_size,
+            nb_source_symbols,
             data: None,
         }
+    }
+}
+
+impl RaptorDecoder {
+    /// Length of an encoding symbol, the source block is partitioned
+    /// in nb_source_symbols symbols of (almost) equal size
+    fn encoding_symbol_length(&self, esi: u32) -> usize {
+        if self.nb_source_symbols == 0 {
+            return 0;
+        }
+        let long_size = num_integer::div_ceil(self.source_block_size, self.nb_source_symbols);
+        let small_size = self.source_block_size / self.nb_source_symbols;
+        let nb_long = self.source_block_size - (small_size * self.nb_source_symbols);
+        if (esi as usize) < self.nb_source_symbols && (esi as usize) >= nb_long {
+            return small_size;
+        }
+        long_size
     }
 }
 
@@ -69,6 +88,16 @@ impl FecDecoder for RaptorDecoder {
             encoding_symbol.len(),
             self.source_block_size
         );
+
+
+        if encoding_symbol.len() != self.encoding_symbol_length(esi) {
+            log::error!(
+                "Encoding symbol length is {} instead of {}",
+                encoding_symbol.len(),
+                self.encoding_symbol_length(esi)
+            );
+            return;
+        }
 
         self.decoder.push_encoding_symbol(encoding_symbol, esi)
     }
